@@ -48,3 +48,5 @@ def lottery(ctx):
 def run(ctx):
     report(ctx, "C09")
     lottery(ctx)
+    from ..drive.shm_clients import run_tier
+    run_tier(ctx, "C09")
